@@ -5,7 +5,7 @@ import vlib, C03_syms
 # kind -> (group of the harness binary, PAD granularity in memory units, is bit kind, is virtual)
 KINDS = {
     "g8": (1, 1), "rgb8": (1, 1), "rgba8": (1, 1), "rgb16": (1, 2), "rgb32f": (1, 4), "p565": (1, 2),
-    "pl8": (2, 1), "pl16": (2, 2), "v": (2, 1),
+    "pl8": (2, 1), "pl16": (2, 2), "v": (2, 1), "pd2": (4, 1), "pd5": (4, 1),
     "b1": (3, 1), "b2": (3, 1), "b3": (3, 1), "b4": (3, 1), "b6": (3, 1), "b12": (3, 1),
 }
 BITS = {"b1": 1, "b2": 2, "b3": 3, "b4": 4, "b6": 6, "b12": 12}
@@ -105,6 +105,14 @@ def gen_ops(ctx):
                     for i in sorted({0, w, r.range(0, w)}):
                         for d in sorted({-i, w - i, 0, 1, -1, r.range(-i, w - i)}):
                             if 0 <= i + d <= w: ops.append("pli %s %d %d %d" % (vw, y, i, d))
+    # --- pnav: planar views of 2, 3 and 5 planes, EVERY plane's address through every path (plain, padded, under random compositions)
+    for kind in ("pd2", "pd5", "pl8", "pl16"):
+        for (W, H) in shapes:
+            if W * H == 0 or W * H > (64 if th else 20): continue
+            for depth, pad in ((0, 0), (0, None), (1, None), (3, None)):
+                vw, w, h = view_words(r, kind, W, H, depth, pad)
+                cx, cy = (r.range(0, w - 1) if w > 0 else 0), (r.range(0, h - 1) if h > 0 else 0)
+                ops.append("pnav %s %d %d" % (vw, cx, cy))
     # --- large views: random multi-row jumps of the 1-D iterator (and a locator move) far from the origin
     BIG = {"v": (1000, 1000), "g8": (700, 700), "rgb8": (400, 400), "pl16": (200, 200), "b1": (1000, 1000), "b6": (300, 300)}
     for kind, (W, H) in BIG.items():
@@ -163,8 +171,8 @@ ASSUME = [
 def run(ctx, ops=None):
     vlib.regen(ctx, C03_syms.NAMESPACE, C03_syms.SYMS)
     obligations, discharged = vlib.standard_proof_steps(ctx)
-    with concurrent.futures.ThreadPoolExecutor(3) as ex:
-        futs = {g: ex.submit(vlib.compile_harness, ctx, "harness/C03/main.cpp", "C03_g%d" % g, (), (), True, "-O1", ["KGROUP=%d" % g]) for g in (1, 2, 3)}
+    with concurrent.futures.ThreadPoolExecutor(4) as ex:
+        futs = {g: ex.submit(vlib.compile_harness, ctx, "harness/C03/main.cpp", "C03_g%d" % g, (), (), True, "-O0", ["KGROUP=%d" % g]) for g in (1, 2, 3, 4)}
         bins = {g: f.result() for g, f in futs.items()}
     samples, distinct = [], 0
     bad = [(g, e) for g, (b, e) in bins.items() if b is None]
@@ -174,7 +182,7 @@ def run(ctx, ops=None):
     else:
         ops = ops or gen_ops(ctx)
         ctx.log("generated %d op lines" % len(ops))
-        for g in (1, 2, 3):
+        for g in (1, 2, 3, 4):
             sub = [o for o in ops if group_of(o) == g]
             if not sub: continue
             impl, model = vlib.correspond(ctx, bins[g][0], "drv_C03", sub, label="group %d" % g)
@@ -185,10 +193,10 @@ def run(ctx, ops=None):
         for o in ops: dist[o.split()[0]] = dist.get(o.split()[0], 0) + 1
         ctx.cov["input_distribution"] = dist
     return vlib.finish(ctx, "proof", obligations, discharged,
-        rule="op lines over 15 view kinds (interleaved 1/3/4/6/12-byte pixels, packed 565, planar 8/16, virtual, bit-aligned 1/2/3/4/6/12 bits) x every shape "
+        rule="op lines over 17 view kinds (interleaved 1/3/4/6/12-byte pixels, packed 565, planar 8/16 with 3 planes and 8 with 2 and 5 planes, virtual, bit-aligned 1/2/3/4/6/12 bits) x every shape "
              "w,h in 0..N x row padding x random compositions of flip/rotate/transpose/subimage/subsample: nav = 10 navigation paths for every pixel, "
              "ra = 1-D iterator laws for every start and every in-range offset (+1 outside on each side), st = x/y iterator laws, mv = locator move programs, "
-             "pli = raw planar x-iterators with all three planes (operator[], it+d, difference, six comparisons), "
+             "pnav = planar views of 2 / 3 / 5 planes with EVERY plane's address through 13 paths, pli = raw planar x-iterators with all three planes (operator[], it+d, difference, six comparisons), "
              "bit/bitit = bit iterator carry at every bit offset, up to and beyond +-2^31 bits; non-trivial = non-empty source (nav: more than one pixel; bit: n != 0)",
         samples=samples, distinct_nontrivial=distinct, assumptions=ASSUME, trusted_base=vlib.TRUSTED_BASE,
         extra={"input_distribution": ctx.cov.get("input_distribution", {}), "view_kinds": sorted(KINDS)})
